@@ -49,6 +49,9 @@ type Env struct {
 	// BuildCalls counts provider builds (the first one per lifetime is construction)
 	BuildCalls int
 	podSeq     map[int]int
+	// GCLag: a Node whose instance is gone survives this many reconciles (0 = collected at once)
+	GCLag  int
+	gcSeen map[string]int
 }
 
 // FatalSignal is the panic raised in place of os.Exit when escalator calls log.Fatal.
